@@ -1,13 +1,16 @@
 """Failing-input search for C10 on the real code: rotating Bloom bounds and the retention window,
 checked for every key of the history."""
 import core
-from search.common import drive, shrink_ops
+from corr.bloom import strategy
+from search.common import drive, keys_pool, shrink_ops
 
 
 def gen(rng):
     est = rng.choice([1, 1, 2, 3, 4])
     q = rng.choice([1, 2, 2, 3, 4])
     keys = ["k%d" % i for i in range(rng.randint(2, 4 * est * q + 4))]
+    if rng.random() < 0.25:
+        keys = keys_pool(rng, len(keys))
     explicit = rng.random() < 0.35
     ops = []
     for _ in range(rng.randint(1, 8 * est * q + 6)):
@@ -20,7 +23,7 @@ def gen(rng):
             ops.append(("pop",))
         else:
             ops.append(("reload",))
-    return {"est": est, "q": q, "fpr": rng.choice([0.1, 0.05, 0.01, 0.001]), "ops": ops, "keys": keys}
+    return {"est": est, "q": q, "fpr": rng.choice([0.1, 0.05, 0.01, 0.001]), "ops": ops, "keys": keys, "strat": rng.choice(["fnv", "fnv", "md5", "sha256", "custom"])}
 
 
 def check(case):
@@ -28,7 +31,8 @@ def check(case):
     from probables.exceptions import RotatingBloomFilterError
 
     est, q = case["est"], case["q"]
-    r = RotatingBloomFilter(est_elements=est, false_positive_rate=case["fpr"], max_queue_size=q)
+    fn = strategy(case.get("strat", "fnv"))[0]
+    r = RotatingBloomFilter(est_elements=est, false_positive_rate=case["fpr"], max_queue_size=q, hash_function=fn)
     effective = 0
     born = {}  # key -> effective-insertion index at which it was inserted after being reported absent
     explicit_since = {}
@@ -57,7 +61,7 @@ def check(case):
                     return f"step {step}: pop refused with {n} filters"
             born.clear()
         else:
-            r = RotatingBloomFilter.frombytes(bytes(r), max_queue_size=q)
+            r = RotatingBloomFilter.frombytes(bytes(r), max_queue_size=q, hash_function=fn)
         n = r.current_queue_size
         if not (1 <= n <= q):
             return f"step {step}: queue holds {n} filters, allowed 1..{q}"
